@@ -221,9 +221,22 @@ def analyze(ctx, want):
 
     me = F.fn(r"MultiPatternNfa::epsilon_closure$")
     ctx.analysed_fn(me)
-    ex, paths = run_fn(me, F, LogModel())
-    zero = [p for p in paths if any(c[0] == "binop" and c[1] == "Eq" and o is True for c, o in p.conds)]
-    nonzero = [p for p in paths if any(c[0] == "binop" and c[1] == "Eq" and o is False for c, o in p.conds)]
+    # (a search delegated to find_nfa is the same search: analysed in place)
+    ex, paths = run_fn(me, F, LogModel(), inline=r"MultiPatternNfa::find_nfa$")
+
+    def zero_test(p):
+        # is this the path for state 0?  (`== 0`, `!= 0`, a match on the number: any spelling)
+        for c, o in p.conds:
+            if c[0] == "binop" and c[1] in ("Eq", "Ne") and isinstance(o, bool) and ("int", 0) in (c[2], c[3]) and "state" in S.fstr(c) and "item@" not in S.fstr(c):
+                return o if c[1] == "Eq" else (not o)
+            if c[0] not in ("binop", "app", "discr", "isvar", "not", "cmp") and "state" in S.fstr(c) and "item@" not in S.fstr(c):
+                if o == 0 and not isinstance(o, bool):
+                    return True
+                if isinstance(o, tuple) and o and o[0] == "otherwise" and 0 in o[1]:
+                    return False
+        return None
+    zero = [p for p in paths if zero_test(p) is True]
+    nonzero = [p for p in paths if zero_test(p) is False]
     okz = False
     for p in zero:
         ec = p.calls(r"internal::nfa::Nfa::epsilon_closure$")
